@@ -313,6 +313,14 @@ func (w *UnchunkWriter) nextPipe(forceNewMessage bool) error {
 	// Lock the readers channel so that it's not closed while waiting on the
 	// select
 	w.readerMu.Lock()
+	// Once closing has started the readers channel may already be closed, and
+	// a select with both cases ready could pick the send
+	select {
+	case <-w.closing:
+		w.readerMu.Unlock()
+		return io.ErrClosedPipe
+	default:
+	}
 	// Send reader to ChunkerReader
 	select {
 	case <-w.closing:
